@@ -34,6 +34,14 @@ const (
 	classTagOrder       = "c11-encoded-frames-not-one-per-encode-call-in-call-order"
 	classNotNegotiated  = "c11-encoder-used-on-connection-that-did-not-negotiate"
 	classUnheldInstalled = "c11-encoder-naming-unheld-dictionary-was-used"
+	// One defect, three symptoms: with ConnectReply.ReplyWithoutQueue command replies are written by
+	// the reader goroutine straight to the transport (Client.writeEncodedCommandReply -> WriteFn),
+	// outside the writer that Client.close stops before it calls CloseDictionaryCompression. Such a
+	// write can (a) be inside Encode when Close runs, (b) happen after Close - the frame then goes
+	// out in the plain protocol to a client that expects encoded frames - or (c) promote the pending
+	// encoder in websocketTransport.writeData (Swap then Store) around CloseDictionaryCompression,
+	// which leaves an installed encoder that is never closed.
+	classRWQ = "c11-reply-without-queue-write-races-encoder-close"
 )
 
 var tagMagic = []byte{0xC1, 0x1D, 0xDC, 0x11}
@@ -385,12 +393,17 @@ func runPart2(c *kit.Case) {
 	eng.mu.Unlock()
 	seen := map[string]bool{}
 	for _, v := range viol {
-		c.Count("p2_engine_reports_"+v.Class, 1)
-		if seen[v.Class+v.User] {
+		cls, msg := v.Class, v.Msg
+		if pl := s.byUser[v.User]; pl != nil && pl.ReplyWithoutQueue && (cls == classCloseOverlap || cls == classEncodeAfter) {
+			cls = classRWQ
+			msg += " (connection uses ReplyWithoutQueue: replies are written by the reader goroutine, outside the writer that close() stops first)"
+		}
+		c.Count("p2_engine_reports_"+cls, 1)
+		if seen[cls+v.User] {
 			continue
 		}
-		seen[v.Class+v.User] = true
-		c.Violation(v.Class, fmt.Sprintf("part 2 user %s: %s", v.User, v.Msg), map[string]any{"plan": s.byUser[v.User]})
+		seen[cls+v.User] = true
+		c.Violation(cls, fmt.Sprintf("part 2 user %s: %s", v.User, msg), map[string]any{"plan": s.byUser[v.User], "symptom": v.Class})
 	}
 	if len(sigs) > 0 {
 		sort.Strings(sigs)
@@ -758,7 +771,12 @@ func (s *p2) judge(p *wsPlan, res *connResult) string {
 		for i := 1; i < len(frs); i++ {
 			f := frs[i]
 			if !f.tagged {
-				c.Violation(classBypass, fmt.Sprintf("part 2 connection %d: frame %d (after the first frame) carries no encoder tag: %v", p.Idx, i, f.kinds), detail(map[string]any{"frame": i}))
+				cls, note := classBypass, ""
+				if p.ReplyWithoutQueue && dc.closed.Load() > 0 && uint64(dc.callsAtClose.Load()) == want-1 {
+					cls = classRWQ
+					note = " (ReplyWithoutQueue: the reply was written by the reader goroutine after Client.close had closed the encoder and before it closed the transport)"
+				}
+				c.Violation(cls, fmt.Sprintf("part 2 connection %d: frame %d (after the first frame) carries no encoder tag: %v%s", p.Idx, i, f.kinds, note), detail(map[string]any{"frame": i, "symptom": classBypass}))
 				break
 			}
 			if f.id != dc.id || f.ctr != want {
@@ -836,7 +854,12 @@ func (s *p2) judge(p *wsPlan, res *connResult) string {
 		}
 		if closed == 0 {
 			if mustBeClosed {
-				c.Violation(classNeverClosed, fmt.Sprintf("part 2 connection %d (%s): DictionaryConnection.Close was never called although %s", p.Idx, cause, why), detail(nil))
+				cls, note := classNeverClosed, ""
+				if p.ReplyWithoutQueue && (cause == "disconnect_during_connect" || cause == "server_disconnect") {
+					cls = classRWQ
+					note = " (ReplyWithoutQueue: the connect reply is written by the reader goroutine; its promotion of the pending encoder in websocketTransport.writeData can straddle CloseDictionaryCompression)"
+				}
+				c.Violation(cls, fmt.Sprintf("part 2 connection %d (%s): DictionaryConnection.Close was never called although %s%s", p.Idx, cause, why, note), detail(map[string]any{"symptom": classNeverClosed}))
 			} else if !waitUntil(func() bool { return dc.closed.Load() > 0 }, 10*time.Second) {
 				c.Inconclusive(fmt.Sprintf("part 2 connection %d (%s): encoder not closed within the bound and no deterministic end-of-connection event was observed", p.Idx, cause))
 			}
